@@ -116,7 +116,9 @@ impl Report {
         let imports = "From Coq Require Import List ZArith QArith Qcanon.\nFrom NI Require Import Num Base Corr.\nImport ListNotations.\nOpen Scope Z_scope.\n";
         let mut fileno = 0;
         for k in &self.kinds {
-            for chunk in k.cases.chunks(self.shard_size) {
+            let total: usize = self.kinds.iter().map(|k| k.cases.len()).sum();
+            let shard = if self.shard_size == 0 { ((total + 23) / 24).max(8) } else { self.shard_size };
+            for chunk in k.cases.chunks(shard) {
                 fileno += 1;
                 let name = format!("{}_{}.v", self.prop, fileno);
                 let path = self.out.join(&name);
